@@ -19,3 +19,10 @@ package helpers
 //@   ensures C01.needs: r <==> exists i int :: 0 <= i && i < len(s) && special(s[i])
 //@   loop 0 invariant bounds: 0 <= i && i <= len(s)
 //@   loop 0 invariant C01.needs.scan: forall j int :: 0 <= j && j < i ==> !special(s[j])
+
+//@ func HasAttr(n, key) (r)
+//@   pure
+//@ func GetAttr(n, key) (r)
+//@   pure
+//@ func FilterAttrs(attrs, key) (r)
+//@   pure
